@@ -381,6 +381,29 @@ def pg_reactant(g, which="reactant"):
     return h
 
 
+def _desc_valid(d, nbr, bonds):
+    c = desc_centre(d)
+    if d[0] in ATOM_CENTRED:
+        return c in nbr and all(x in nbr[c] for x in d[1][1:] if x is not None)
+    a = d[1]
+    if c not in bonds:
+        return False
+    return all(x is None or x in nbr[a[2]] for x in a[0:2]) and all(x is None or x in nbr[a[3]] for x in a[4:6])
+
+
+def pg_stereo_valid(g) -> bool:
+    """every descriptor only names ligands that are bonded to its centre in every structure
+    (reactant / product / TS for reaction graphs) in which the descriptor is present"""
+    reaction = any("reaction" in v for v in g["bonds"].values()) or g["achange"] or g["bchange"]
+    structs = {w: pg_reactant(g, w) for w in ("reactant", "product", "ts")} if reaction else {"ts": g}
+    for w, h in structs.items():
+        nbr = pg_neighbors(h)
+        for d in list(h["astereo"].values()) + list(h["bstereo"].values()):
+            if not _desc_valid(d, nbr, h["bonds"]):
+                return False
+    return True
+
+
 _SWAP = {"FORMED": "BROKEN", "BROKEN": "FORMED", "FLEETING": "FLEETING"}
 
 
